@@ -18,7 +18,7 @@ pub fn def() -> PropDef {
         streams,
         run,
         floors,
-        rule: "exhaustive over all 65536 values of each enumerated field: message type, general error type, proxy authen type (decoded inside a one-AVP body and through the per-type decoder), result code (kept raw; as_stop_ccn / as_cdn Ok iff 0..7 / 0..11) and attribute type (non-hidden record with a valid payload for the kind). Accepted <=> assigned in the reference's RFC 2661 table; the accepted value's variant *name* must be the RFC name of that number; re-encoding must give the number back; every named variant encodes to its RFC number. Distinct = distinct (field, value); non-trivial = all (each is one code point of the space).",
+        rule: "exhaustive over all 65536 values of each enumerated field: message type, general error type, proxy authen type (decoded inside a one-AVP body and through the per-type decoder), result code (kept raw; as_stop_ccn / as_cdn Ok iff 0..7 / 0..11) and attribute type (non-hidden record with a valid payload for the kind). Accepted <=> assigned in the reference's RFC 2661 table; the accepted value's variant *name* must be the RFC name of that number; re-encoding must give the number back; every named variant encodes to its RFC number. Distinct = distinct (field, value); non-trivial = all (each is one code point of the space). Also: every code through every entry point (message, bare list, per-type decoder, reveal) with the same verdict and value; the record behind 8191..12000 others in a bare list; named values of one result-code family converted to the other.",
     }
 }
 
